@@ -72,11 +72,15 @@ C = {
          "(axiomatised for lengths 1-3)"),
  "C10": ("the `except Exception` handler of _advance_head_front (block contract on its statements): for every exception object and every element the "
          "head may stand on (with or without source information) the handler raises nothing, queues exactly one internal event, that event is a "
-         "ColangError carrying the exception's type name and message, and the flow is marked aborted",
+         "ColangError carrying the exception's type name and message, and the flow is marked aborted; and the retry loop of "
+         "RuntimeV2_x.process_events around run_to_completion (block contract): no Exception that run_to_completion raises ever leaves the loop, every "
+         "failure is answered by handing run_to_completion one freshly built ColangError event (type name + text; checked at the call), and the loop is "
+         "left only after a call that returned",
          "termination of process_events (step bound + hard timeout) and fault containment for an erroneous expression at every statement position with "
          "unrelated reactor flows",
          "A-POS: when the try body raises the head stands on an element of its flow (precondition of the block, not verified); everything outside the "
-         "handler (slide, _abort_flow, the match-time evaluation that has no handler at all: known findings) and termination are bounded only"),
+         "handler (slide, _abort_flow, the match-time evaluation that has no handler at all: known findings) and termination - also of the retry loop - "
+         "are bounded only; A-SLEEP (tasks scheduled during asyncio.sleep do not touch the local event object)"),
  "C11": ("the aging part, function-level core only: the loop of _clean_up_state that selects the flow instances to discard (block contract) selects - whatever "
          "the clock says - only instances of state.flow_states that are done (status stopped / finished, _is_done_flow under contract) and not "
          "activated, and changes nothing; a waiting / starting / started / stopping or activated instance is never selected",
